@@ -167,7 +167,7 @@ Inl(q) == IF q = <<>> THEN <<>>
 (* blocks *)
 HName(n) == "h" \o ToString(n)
 RECURSIVE CodeLines(_)
-CodeLines(ls) == IF ls = <<>> THEN <<>> ELSE <<T(LineTab[ls[1]] \o "\n")>> \o CodeLines(Tail(ls))
+CodeLines(ls) == IF ls = <<>> THEN <<>> ELSE <<T(ls[1].h \o "\n")>> \o CodeLines(Tail(ls))   \* ls: line records (MdDoc!CL / RL)
 
 \* loose in CommonMark: blank line between two items, or an item with two blocks (Write separates
 \* sibling blocks by a blank line)
@@ -181,8 +181,8 @@ BlockT(b) ==
     [] b.k = "fence" -> <<O("pre", "<pre>"),
                           O("code", IF InfoTab[b.s] = "" THEN "<code>"
                                     ELSE "<code class=\"language-" \o InfoTab[b.s] \o "\">")>>
-                        \o CodeLines(b.body) \o <<C("code"), C("pre"), NL>>
-    [] b.k = "icode" -> <<O("pre", "<pre>"), O("code", "<code>")>> \o CodeLines(b.body) \o <<C("code"), C("pre"), NL>>
+                        \o CodeLines(b.cls) \o <<C("code"), C("pre"), NL>>
+    [] b.k = "icode" -> <<O("pre", "<pre>"), O("code", "<code>")>> \o CodeLines(b.cls) \o <<C("code"), C("pre"), NL>>
     [] b.k = "them"  -> <<V("<hr />"), NL>>
     [] b.k = "html"  -> <<V(Spaces(b.ind) \o b.body[1] \o "\n")>>
                         \o [i \in 1..(Len(b.body) - 1) |-> V(b.body[i + 1] \o "\n")]
@@ -220,8 +220,8 @@ BlockUnspec(b, inBareQuote) ==
     [] b.k = "atx"   -> IF b.s = " {#id}" THEN "attr"
                         ELSE IF BodyTicks(b.inl) THEN "ticks" ELSE InlUnspec(b.inl, TRUE, b.s)
     [] b.k = "fence" -> IF inBareQuote THEN "swallow"
-                        ELSE IF b.s \notin DOMAIN InfoTab \/ \E i \in DOMAIN b.body : b.body[i] \notin DOMAIN LineTab THEN "vocab" ELSE ""
-    [] b.k = "icode" -> IF \E i \in DOMAIN b.body : b.body[i] \notin DOMAIN LineTab THEN "vocab" ELSE ""
+                        ELSE IF b.s \notin DOMAIN InfoTab THEN "vocab" ELSE ""
+    [] b.k = "icode" -> ""
     [] b.k \in {"them", "html"} -> ""
     [] b.k = "quote" -> BlocksUnspec(b.items[1], b.s = ">")
     [] b.k \in ListKinds ->
